@@ -23,7 +23,10 @@ prop(
         "For every request body, every chunking of it into reads (io.Reader.Read may return any n) and every buffer state, "
         "each call of the pipeline's In() made by processBulk/processChunk receives exactly the next newline-separated line of the body "
         "(oracle: callee clause on In, taken from the property text), and processBulk returns nil only after the whole body, "
-        "including an unterminated last line, has been handed over. Proved by loop invariants over the real SSA, no bound."
+        "including an unterminated last line, has been handed over. Proved by loop invariants over the real SSA, no bound. "
+        "Handler: ServeHTTP asks auth exactly once, answers a refusal with one 401 and nothing else, runs serveBulk at most once, only after a yes, before anything was written, and never reads the body itself (guards); "
+        "auth / authBasic / authBearer call exactly the configured checker and return its verdict; the gzip reader is built over this request's body; Start leaves the free list of source ids empty (its representation invariant holds before the first request). "
+        "NOT part of the claim (open finding, printed as KNOWN-FINDING): in elasticsearch emulate mode a request to an unknown path is answered 200 although its body was not processed."
     ),
     undecided=[
         "concurrent requests never mix bytes: rests on sync.Pool handing a buffer to one owner at a time (trusted); the source-id free list is under a monitor invariant (distinct ids below sourceSeq, the returned id leaves the list) given that an id is put back once, by its holder (explicit assumption in putSourceID)",
@@ -130,7 +133,10 @@ prop(
         "RetriableBatcher.Out, for every success/failure sequence of the send function (outFn returns any error or nil on every call; loop invariant, no bound) and every retry count including 0 and negative: "
         "it returns normally only right after a send that returned nil; it gives up at most once, only with a non-negative retry count and only after strictly more retries than configured; "
         "on giving up the error callback receives exactly the batch's events once, and the batch is emptied and marked in-dead-queue iff a dead queue is available, otherwise left untouched so the main output commits it. "
-        "Batch.reset empties the batch (frame checked). Router.Fail hands a failed event to the dead queue iff one is configured (never to the main output), and Router.Stop stops the dead queue only after the main output has stopped, so a batch that exhausts its retries during shutdown still finds a dead queue that accepts it."
+        "Batch.reset empties the batch (frame checked). Router.Fail hands a failed event to the dead queue iff one is configured (never to the main output), and Router.Stop stops the dead queue only after the main output has stopped, so a batch that exhausts its retries during shutdown still finds a dead queue that accepts it. "
+        "Sinks: the elasticsearch output's send issues one POST of the whole buffer and returns the request's status and error; reportESErrors decodes exactly the response, counts the failed items and reports an undecodable response as an error; "
+        "the GELF output returns connect and send errors to the retry loop and its maintenance closes only an existing client (repaired defect). "
+        "NOT part of the claim (open findings, printed as KNOWN-FINDING, their clauses are checked on every run and never assumed): the elasticsearch output maps 400 / 413 and bulk responses with item-level failures to success; Batcher.Stop drops the open batch."
     ),
     undecided=[
         "which of the two batchers (main / dead queue) commits first: an interleaving, not decided (the order in which Router.Stop stops them is under contract)",
